@@ -43,6 +43,10 @@ class HarnessError(Exception):
     """The harness (generator / builder / oracle) is broken; never a VIOLATION."""
 
 
+class _CapReached(KeyboardInterrupt):
+    """generation time cap of a shard reached (not a failure: the cases not generated are reported as skipped)"""
+
+
 class Discard(Exception):
     """Case is outside the property's domain (counted, not a violation)."""
 
@@ -206,7 +210,7 @@ def run_shard(pid, tier, seed, shard, nshards, outdir):
         def test(case):
             if cur["target"] is None and time.time() - t_start > time_cap:
                 st["capped"] += 1
-                return
+                raise _CapReached()  # leaves Hypothesis at once (it does not intercept KeyboardInterrupt); generating the rest would only cost time
             if cur["target"] is not None and time.time() - cur["shrink_start"] > shrink_cap:
                 return  # stop shrinking: everything "passes" from here on
             try:
@@ -223,6 +227,9 @@ def run_shard(pid, tier, seed, shard, nshards, outdir):
 
         try:
             test()
+        except _CapReached:
+            st["capped"] += max(remaining - (st["evaluations"] - done_before) - 1, 0)
+            break
         except (HarnessError, KeyboardInterrupt):
             raise
         except BaseException as e:  # noqa - Violation, Flaky*, or an unexpected error
